@@ -149,6 +149,14 @@ func implH264(b []byte) (r implVideo) {
 	vm := codec.VideoMeta{Codec: "H264", Sps: append([]byte{}, b...), Pps: []byte{0x68, 0xce, 0x38, 0x80}}
 	r.ready = h264.MetadataIsReady(&vm)
 	r.mw, r.mh, r.mfixed, r.mfps = vm.Width, vm.Height, vm.FixedFrameRate, vm.FrameRate
+	// guards of MetadataIsReady: no PPS / no SPS → not ready; Width already known → ready without decoding
+	noPps := codec.VideoMeta{Codec: "H264", Sps: append([]byte{}, b...)}
+	noSps := codec.VideoMeta{Codec: "H264", Pps: []byte{0x68}}
+	known := codec.VideoMeta{Codec: "H264", Sps: append([]byte{}, b...), Pps: []byte{0x68}, Width: 7, Height: 9}
+	if h264.MetadataIsReady(&noPps) || h264.MetadataIsReady(&noSps) || noPps.Width != 0 ||
+		(len(b) > 0 && (!h264.MetadataIsReady(&known) || known.Width != 7 || known.Height != 9)) {
+		r.outcome = "guards-broken"
+	}
 	return
 }
 
@@ -217,6 +225,14 @@ func evalH264(c *Ctx, k caseT, out string) {
 	}
 	if r.outcome == "escaped-panic" {
 		c.Find(Finding{Kind: "oracle", Class: "h264-panic-escapes", Case: k.line, Impl: r.outcome, Spec: "error or result", Detail: "a panic left RawSPS.Decode / MetadataIsReady"})
+	}
+	// the same parameter set through SDP (sdp.ParseMetadata, media.NewStream); a sample of the cases
+	if c.Rng.Intn(4) == 0 && r.outcome != "escaped-panic" {
+		d := ""
+		if modelOutcome == "ok" {
+			d = m["dims"]
+		}
+		checkSdp(c, k, "h264", data, d, m["spec"])
 	}
 	// oracle: a syntactically valid SPS (generated inside the standard's value ranges) must decode
 	// and report the dimensions / frame rate / fixed flag the standard derives
